@@ -1551,6 +1551,48 @@ def rule_r10(facts, rep, rid="C01-R10"):
     rep.floor(rid, "container arms that switch the insert flag", n, 2)
 
 
+# ------------------------------------------------------------------------------------------------------------ R11 first block of an item
+
+def rule_r11(facts, rep, rid="C01-R11"):
+    rep.rule(rid, "sibling agreement between the two places that turn a list into graph nodes: SectionsBuilder::block (a list anywhere in a section) opens a list node, walks the items as its "
+                  "children and restores the cursor; SectionsBuilder::section_block (a list as the FIRST block of a list item, `- - a`) has to do the same - walking the items in place "
+                  "flattens the nested list into its parent and leaves the cursor inside the last nested item, so what follows overwrites that item's children")
+    blk = facts.fn("SectionsBuilder::block")
+    sec = facts.fn("SectionsBuilder::section_block")
+    rep.saw_fn(blk)
+    rep.saw_fn(sec)
+    mb = A.matches_on(blk, "DocumentBlock")
+    msec = A.matches_on(sec, "DocumentBlock")
+    if not mb or not msec:
+        rep.anchor_missing(rid, "match on DocumentBlock in SectionsBuilder::block / section_block")
+        return
+
+    def effects(arm):
+        names = set(x["name"] for x in fb.walk(arm["body"]) if x.get("k") == "mcall")
+        return {"opens-list": bool(names & {"bullet_list", "ordered_list"}), "restores-cursor": "set_id" in names, "walks-items": "process_section" in names}
+    ref = {}
+    for vs, arm in A.arms_of(mb[0]):
+        for v in vs:
+            if fb.last_seg(v) in ("BulletList", "OrderedList"):
+                ref[fb.last_seg(v)] = effects(arm)
+    for vs, arm in A.arms_of(msec[0]):
+        for v in vs:
+            vs_ = fb.last_seg(v)
+            if vs_ not in ("BulletList", "OrderedList"):
+                continue
+            key = "%s|arm:%s|agrees-with-block" % (sec.def_, vs_)
+            got = effects(arm)
+            want = ref.get(vs_)
+            if want is None:
+                rep.anchor_missing(rid, "arm for %s in SectionsBuilder::block" % vs_)
+            elif got == want or not got["walks-items"]:
+                rep.ok(rid, key, "same treatment as SectionsBuilder::block (%s)" % got, loc(sec, arm["body"]))
+            else:
+                rep.violation(rid, key, "a %s that is the first block of a list item is walked in place (%s) while SectionsBuilder::block gives a list its own node and restores the cursor (%s): "
+                              "`- - a\\n    - b\\n\\n  para` is written back as `- a\\n\\n  para` - the nested list is flattened into its parent and the item `b` is lost (its nodes stay in the "
+                              "arena, unreachable)" % (vs_, got, want), loc(sec, arm["body"]))
+
+
 def run(facts, rep, tier):
     rule_r1(facts, rep)
     rule_r1b(facts, rep)
@@ -1582,6 +1624,7 @@ def run(facts, rep, tier):
     c05.rule_r3(facts, rep, "C01-R4c")
     rep.rule("C01-R4d", "= C05-R7: only a one-inline paragraph is a block reference (otherwise the other inlines of the paragraph are dropped when the note is formatted).")
     c05.rule_r7(facts, rep, "C01-R4d")
+    rule_r11(facts, rep)
 
 class _Only:
     """Forwards only the instances whose key contains a marker."""
